@@ -52,17 +52,52 @@ def generate():
     value_names = m.group(2).split('|')
     need(re.search(r'const auto match = ruleRegex\.match\(line\); if \(!match\.hasMatch\(\)\) continue;', pr),
          'parseRules: a line the regex rejects is skipped with continue')
-    need(re.search(r'auto category = match\.captured\(1\); category = QRegularExpression::escape\(category\); '
-                   r'category\.replace\("\\\\\*", "\.\*"\);', pr),
-         'parseRules: category = captured(1); escape(category); category.replace("\\\\*", ".*")')
-    star = ord('*')
-    if re.search(r'rule->category = QRegularExpression\("\\\\A" \+ category \+ "\\\\z", ?QRegularExpression::DotMatchesEverythingOption\);', pr):
-        line_anchors = False
-    elif re.search(r'rule->category = QRegularExpression\("\^" \+ category \+ "\$"\);', pr):
-        line_anchors = True
+    # --- how the category pattern is stored and matched: three known shapes
+    rule_struct = flat(need(re.search(r'struct CategoryFilter::Rule\s*\{(.*?)\};', s, re.S), 'struct CategoryFilter::Rule').group(1))
+    mb = flat(fn_body(s, 'CategoryFilter::Rule::matches'))
+    type_test = r'\(!typeMatch \|\| type == messageType\)'
+    star = None
+    if re.search(r'rule->category = match\.captured\(1\);', pr):
+        # the pattern is kept verbatim and matched by the file-local wildcardMatch()
+        need('QRegularExpression::escape' not in pr and 'category.replace' not in pr and 'rule->category = QRegularExpression' not in pr,
+             'parseRules: captured(1) stored verbatim (no escape/replace/QRegularExpression for the category)')
+        need(re.search(r'\bQString category;', rule_struct), 'Rule::category is a QString')
+        need(re.fullmatch(r' ?return wildcardMatch\(this->category, category\) && %s; ?' % type_test, mb),
+             'Rule::matches: wildcardMatch(this->category, category) && (!typeMatch || type == messageType)')
+        need(len(re.findall(r'\bwildcardMatch\s*\(', s)) == 2, 'wildcardMatch: one definition, one call')
+        need(re.search(r'bool wildcardMatch\(const QString &pattern, const QString &text\)', flat(s)),
+             'bool wildcardMatch(const QString &pattern, const QString &text)')
+        wb = flat(fn_body(s, 'wildcardMatch'))
+        lit = r"QLatin1Char\('((?:\\.|[^'\\]))'\)"
+        m = need(re.fullmatch(
+            r' ?int p = 0, t = 0, star = -1, mark = 0; '
+            r'while \(t < text\.size\(\)\) \{ '
+            r'if \(p < pattern\.size\(\) && pattern\.at\(p\) == ' + lit + r'\) \{ star = p\+\+; mark = t; \} '
+            r'else if \(p < pattern\.size\(\) && pattern\.at\(p\) == text\.at\(t\)\) \{ \+\+p; \+\+t; \} '
+            r'else if \(star >= 0\) \{ p = star \+ 1; t = \+\+mark; \} '
+            r'else \{ return false; \} \} '
+            r'while \(p < pattern\.size\(\) && pattern\.at\(p\) == ' + lit + r'\) \+\+p; '
+            r'return p == pattern\.size\(\); ?', wb),
+            'wildcardMatch body: init p,t,star,mark; while (t < size) {wildcard: star = p++, mark = t | equal: ++p, ++t | '
+            'star >= 0: p = star + 1, t = ++mark | return false}; skip trailing wildcards; return p == pattern.size()')
+        need(m.group(1) == m.group(2), 'wildcardMatch: the same wildcard character in the loop and in the trailing-wildcard loop')
+        star = c_char(m.group(1), 'wildcard character')
+        matcher = 'MWildcardIter'
     else:
-        raise AnchorError('ANCHOR NOT FOUND: parseRules: rule->category = QRegularExpression("\\\\A" + category + "\\\\z", '
-                          'DotMatchesEverythingOption)  (or the former "^" + category + "$")')
+        need(re.search(r'auto category = match\.captured\(1\); category = QRegularExpression::escape\(category\); '
+                       r'category\.replace\("\\\\\*", "\.\*"\);', pr),
+             'parseRules: rule->category = captured(1) verbatim, or the former category = captured(1); escape(category); category.replace("\\\\*", ".*")')
+        need(re.search(r'\bQRegularExpression category;', rule_struct), 'Rule::category is a QRegularExpression')
+        need(re.fullmatch(r' ?return this->category\.match\(category\)\.hasMatch\(\) && %s; ?' % type_test, mb),
+             'Rule::matches: category.match(category).hasMatch() && (!typeMatch || type == messageType)')
+        star = ord('*')
+        if re.search(r'rule->category = QRegularExpression\("\\\\A" \+ category \+ "\\\\z", ?QRegularExpression::DotMatchesEverythingOption\);', pr):
+            matcher = 'MRegexWhole'
+        elif re.search(r'rule->category = QRegularExpression\("\^" \+ category \+ "\$"\);', pr):
+            matcher = 'MRegexLine'
+        else:
+            raise AnchorError('ANCHOR NOT FOUND: parseRules: rule->category = QRegularExpression("\\\\A" + category + "\\\\z", '
+                              'DotMatchesEverythingOption)  (or the former "^" + category + "$")')
     need(re.search(r'rule->type = stringToQtMsgType\(match\.captured\(2\)\);', pr), 'parseRules: rule->type = stringToQtMsgType(captured(2))')
     need(re.search(r'rule->typeMatch = !match\.captured\(2\)\.isEmpty\(\);', pr), 'parseRules: rule->typeMatch = !captured(2).isEmpty()')
     m = need(re.search(r'rule->enabled = match\.captured\(3\) == "([^"\\]*)";', pr), 'parseRules: rule->enabled = captured(3) == "<v>"')
@@ -86,11 +121,6 @@ def generate():
             raise AnchorError('ANCHOR NOT FOUND: stringToQtMsgType: unknown QtMsgType %s' % q)
         return MT[q]
 
-    # --- Rule::matches
-    mb = flat(fn_body(s, 'CategoryFilter::Rule::matches'))
-    need(re.fullmatch(r' ?return this->category\.match\(category\)\.hasMatch\(\) && \(!typeMatch \|\| type == messageType\); ?', mb),
-         'Rule::matches: category.match(category).hasMatch() && (!typeMatch || type == messageType)')
-
     # --- filter(): default verdict and loop shape
     fb = flat(fn_body(s, 'CategoryFilter::filter'))
     m = need(re.fullmatch(r' ?bool enabled = (true|false); for \(const auto &rule : std::as_const\(m_rules\)\) \{ '
@@ -112,6 +142,6 @@ def generate():
     out += '  sep_from := %d; sep_to := %d; split_ch := %d;\n' % (sep_from, sep_to, split_ch)
     out += '  suffixes := [%s];\n' % '; '.join('(%s, %s)' % (coq_str(n), mt(n)) for n in suffix_names)
     out += '  values := [%s];\n' % '; '.join('(%s, %s)' % (coq_str(v), 'true' if v == enabling else 'false') for v in value_names)
-    out += '  star := %d; line_anchors := %s;\n' % (star, 'true' if line_anchors else 'false')
+    out += '  star := %d; matcher := %s;\n' % (star, matcher)
     out += '  default_verdict := %s; shape := %s |}.\n' % (default_verdict, shape)
     return {'SrcCategory.v': out}
